@@ -291,8 +291,14 @@ where
     unsafe fn validate_unchecked(bytes: &[u8]) -> Result<(), Error> {
         // Only the part covered by `Self::ptr_from_bytes` belongs to the vector.
         let bytes = unsafe { bytes.get_unchecked(..floor_mul(bytes.len(), Self::ALIGN)) };
-        for item_bytes in DataIter::<'_, T, L, _>::new(bytes) {
-            T::validate(item_bytes?)?;
+        let mut iter = DataIter::<'_, T, L, _>::new(bytes);
+        loop {
+            // Position of the item's payload from the beginning of the vector.
+            let payload_pos = iter.pos + Self::OFFSET_SIZE;
+            match iter.next() {
+                Some(item_bytes) => T::validate(item_bytes?).map_err(|e| e.offset(payload_pos))?,
+                None => break,
+            }
         }
         Ok(())
     }
